@@ -76,7 +76,8 @@ TargetSpellings(parent, p) ==
    slash  |-> parent \o <<"SL">> \o p \o <<"SL">>,
    dot    |-> <<"DOT", "SL">> \o parent \o <<"SL">> \o p,
    dslash |-> parent \o <<"SL", "SL">> \o p,
-   dotin  |-> parent \o <<"SL", "DOT", "SL">> \o p]
+   dotin  |-> parent \o <<"SL", "DOT", "SL">> \o p,
+   dotdot |-> parent \o <<"SL", "gone", "SL", "DOT", "DOT", "SL">> \o p]   \* ('gone' need not exist: the cleaning is lexical)
 SpellingsAgree(parent, p) ==
   \A k \in DOMAIN TargetSpellings(parent, p) : Clean(TargetSpellings(parent, p)[k]) = parent \o <<"SL">> \o p
 
